@@ -1,0 +1,17 @@
+//go:build verif
+// +build verif
+
+package HolidayUtil
+
+// Verification exports (build tag verif only): the raw record string and
+// names in use (ground truth for the four query views), and a reset so that
+// many Fix sequences can be replayed in one process.
+
+func VerifData() string { return dataInUse }
+
+func VerifNames() []string { return namesInUse }
+
+func VerifReset() {
+	dataInUse = data
+	namesInUse = NAMES
+}
